@@ -112,6 +112,8 @@ def templates():
         ('escape-XAb-in-string', ';"a\\XAbb" & 0xff\n', False, None),
         ('bad-escape-q-in-char', ';\'\\q\'\n', True, None),
         ('bad-hex-escape-one-digit', ';\'\\x4\'\n', True, None),
+        ('runaway-recursion-with-a-growing-label-argument', 'lbl:\n;\ndef f x {\nf x+1\n}\nf lbl\n', True, 'depth'),
+        ('runaway-recursion-with-a-growing-label-argument-in-rep', 'lbl:\n;\ndef f x {\nrep(1, i) f x+i+2\n}\nf lbl\n', True, 'depth'),
         ('macro-recursion-through-rep', 'def recrep {\nrep(1, i) recrep\n}\nrecrep\n', True, 'recrep'),
         ('macro-recursion-through-rep-with-arg', 'def recarg x {\nrep(2, i) recarg x+i\n}\nrecarg 0\n', True, 'recarg'),
         ('macro-mutual-recursion-through-rep', 'def ma {\nmb\n}\ndef mb {\nrep(1, i) ma\n}\nma\n', True, None),
